@@ -346,13 +346,16 @@ def run(cx):
     exe = vp.build_harness("c07_rel", "seq", link_lib=True)
 
     rng = random.Random(cx.seed * 104729 + 7)
-    ncase = cx.pick(180, 4000)
+    ncase = cx.pick(300, 4000)
     progs = {}
     corpus = [
         "cube 2 2 2 dup tr 1 0 0 0 1 0 0 0 1 4/4 2/4 1/4 sub",
         "cube 2 2 2 mesh 2 1 5 tet mesh 0 0 1 tr 2 0 0 0 2 0 0 0 2 2/4 2/4 2/4 int",
         "cube 1 1 1 cube 1 1 1 tr 1 0 0 0 1 0 0 0 1 12/4 0 0 compose 2 decompose 1",
         "sphere 1 4 mesh 1 2 3 cube 2 2 2 mesh 3 0 4 tr -1 0 0 0 1 0 0 0 1 2/4 -3/4 -4/4 swap sub",
+        # minimal replays of the two findings made on the pinned tree (regressions once fixed)
+        "cube 1 1 1 cube 1 1 1 tr 1 0 0 0 1 0 0 0 1 12/4 0 0 add refine 2",          # Compose zero-fills tangents -> Refine recomputes coplanarIDs
+        "tet cube 1 1 3 mesh 1 0 860 tr 1 0 0 0 1 0 0 0 1 -4/8 0 4/4 add",           # colinear collapse keeps a property vertex of the removed position
     ]
     for i, p in enumerate(corpus):
         progs["c%d" % i] = p.split()
@@ -372,7 +375,9 @@ def run(cx):
                 res[j["id"]] = j
         return res, crashes
 
+    cx.log('builds done; running %d programs' % len(progs))
     res, crashes = execute(progs)
+    cx.log('harness done')
     for cl, rc, err in crashes:
         cx.violation("relation-program-crash", "program crashed the library (rc=%s): %s" % (rc, err[-200:]), {"program": cl})
 
@@ -405,9 +410,11 @@ def run(cx):
                     m2, t2 = rel_lines(nd["rel"], hh)
                     parts.append("%d %s %s" % (0 if nd["identity"] else (ni + 1) * 100000, m2, t2))
                 dl.append("COMP %s %d %d %s" % (sid, s["c0"], len(s["nodes"]), " ".join(parts)))
+    cx.log('driver input ready (%d lines)' % len(dl))
     rc, mout, merr = vp.sh2([drv], input="\n".join(dl) + "\n", timeout=1500)
     if rc != 0:
         cx.broke("corr:C07/model-driver", "model driver exited %d: %s" % (rc, merr[-300:]))
+    cx.log('model driver done')
     model = {}
     for l in mout.splitlines():
         w = l.split(" ", 2)
@@ -549,6 +556,8 @@ def run(cx):
                 M = mat_fr(s["mat"])
                 ident = s["mat"] == [0x3FF0000000000000, 0, 0, 0, 0x3FF0000000000000, 0, 0, 0, 0x3FF0000000000000, 0, 0, 0]
                 pm = s["P"]["map"]
+                if s["P"]["numTri"] == 0:      # empty operand: Transform ends in MakeEmpty, which resets the relation (outside the model)
+                    continue
                 ok = len(pm) == len(got_map) and s["P"]["triRef"] == s["R"]["triRef"]
                 for e, g in zip(pm, got_map):
                     ok = ok and tuple(e[:4]) == g[:4] and (tuple(e[4]) == g[4] if ident else mat_close(g[4], mat_mul(M, mat_fr(e[4]))))
@@ -575,6 +584,7 @@ def run(cx):
             cx.sample({"program": " ".join(prog), "runIndex": o["runIndex"], "runOriginalID": o["runOriginalID"], "runFlags": o["runFlags"],
                        "numTri": len(o["triVerts"]) // 3, "numProp": o["numProp"], "oracle": j.get("_stats")})
 
+    cx.log('oracle + comparison done')
     # ---- search phase: a correspondence broke and the oracle found nothing: aim extra programs at the broken function
     if corr_bad and not cx.violations:
         fam = {"bool": [1, 8, 2], "runs": [8, 2, 5], "compose": [5], "incr": [1, 5], "init": [6], "transform": [7, 1], "rel": [1, 2]}
